@@ -1,6 +1,7 @@
 ------------------------------ MODULE Trace_CLI ------------------------------
 (* Each recorded invocation of the real binary is judged with the operators of CLI.tla.       *)
 EXTENDS Json, TLC, Integers, Sequences, FiniteSets
+SM == INSTANCE Summary
 C == INSTANCE CLI WITH Scenarios <- {}, scn <- [fmt |-> "pem"], pc <- "setup", i <- 1, printed <- 0, exit <- -1
 Trace == ndJsonDeserialize("trace.ndjson")
 VARIABLES l, nrej
@@ -20,7 +21,9 @@ Reasons(e) ==
    (IF e.printedObs > want THEN {G(hBad, "result-printed-for-failing-input")} ELSE {}) \cup
    (IF e.printedObs < want THEN {G(hMiss, "result-missing")} ELSE {}) \cup
    (IF e.printedObs > 0 /\ ~e.match THEN {"output-differs-from-library"} ELSE {}) \cup
-   (IF e.junk THEN {"fid-unparsable-stdout"} ELSE {})
+   (IF e.junk THEN {"fid-unparsable-stdout"} ELSE {}) \cup
+   \* every summary table against the results the library computed for that input (Summary.tla)
+   UNION {SM!TableReasons(e.tables[k], e.libSts[e.tables[k].input]) : k \in 1..Len(e.tables)}
 TraceInit == l = 1 /\ nrej = 0
 Step == /\ l <= Len(Trace)
         /\ LET r == IF Trace[l].ev = "CLI" THEN Reasons(Trace[l]) ELSE {} IN
